@@ -57,6 +57,9 @@ func producerForkDirs(res *Result, d progen.FileParams) []string {
 	if d.Prod == "splitw" {
 		prod = "SPLITW"
 	}
+	if d.Prod == "splitn" {
+		prod = "SPLITN"
+	}
 	base := filepath.Join(res.PsPath, "TOP")
 	if d.ProdWrap {
 		base = filepath.Join(base, "PW")
@@ -237,7 +240,7 @@ func fileOracle(prop string, d progen.FileParams, res *Result) []string {
 		if strings.Contains(rel, "/tmp/") {
 			out = append(out, "temporary file survives the completed run: "+rel)
 		}
-		if d.Prod == "splitw" && strings.Contains(rel, "/chnk") && strings.Contains(rel, "/files/") {
+		if (d.Prod == "splitw" || d.Prod == "splitn") && strings.Contains(rel, "/chnk") && strings.Contains(rel, "/files/") {
 			out = append(out, "chunk-level file of a splitting stage survives: "+rel)
 		}
 	}
